@@ -5,6 +5,9 @@ import (
 	"go/constant"
 	"go/types"
 	"golang.org/x/tools/go/ssa"
+	"regexp"
+	"sort"
+	"strings"
 
 	"golang.org/x/tools/go/packages"
 )
@@ -95,4 +98,113 @@ func isZeroConst(v ssa.Value) bool {
 		return ok && n == 0
 	}
 	return false
+}
+
+var identRe = regexp.MustCompile(`[A-Za-z_][A-Za-z0-9_]*`)
+
+// canonKey blanks the names of plain variables in the expression part of a table key
+// ("function:expression"): an identifier that is neither selected from (x.), a selected field
+// (.x) nor called (x(). A table entry stays valid when a local variable is renamed.
+func canonKey(key string) string {
+	i := strings.Index(key, "):")
+	if i < 0 {
+		i = strings.Index(key, ":")
+		if i < 0 {
+			return key
+		}
+		i--
+	}
+	fn, expr := key[:i+2], key[i+2:]
+	out := identRe.ReplaceAllStringFunc(expr, func(id string) string { return "\x00" + id + "\x00" })
+	var b strings.Builder
+	parts := strings.Split(out, "\x00")
+	for k := 0; k < len(parts); k++ {
+		if k%2 == 0 {
+			b.WriteString(parts[k])
+			continue
+		}
+		id := parts[k]
+		prev, next := "", ""
+		if k > 0 {
+			prev = parts[k-1]
+		}
+		if k+1 < len(parts) {
+			next = parts[k+1]
+		}
+		switch {
+		case strings.HasSuffix(prev, "."), strings.HasPrefix(next, "."), strings.HasPrefix(next, "("):
+			b.WriteString(id)
+		case id == "nil" || id == "true" || id == "false" || id == "len" || id == "cap":
+			b.WriteString(id)
+		default:
+			b.WriteString("_")
+		}
+	}
+	return fn + b.String()
+}
+
+// alphaEq: are two table keys equal up to a consistent renaming of the identifiers that are not
+// selected fields (not preceded by a dot)? The function parts must be equal.
+func alphaEq(a, b string) bool {
+	split := func(key string) (string, string) {
+		i := strings.Index(key, "):")
+		if i < 0 {
+			i = strings.Index(key, ":")
+			if i < 0 {
+				return key, ""
+			}
+			i--
+		}
+		return key[:i+2], key[i+2:]
+	}
+	fa, ea := split(a)
+	fb, eb := split(b)
+	if fa != fb {
+		return false
+	}
+	ia, ib := identRe.FindAllStringIndex(ea, -1), identRe.FindAllStringIndex(eb, -1)
+	if len(ia) != len(ib) {
+		return false
+	}
+	// the text between identifiers must agree
+	if identRe.ReplaceAllString(ea, "\x00") != identRe.ReplaceAllString(eb, "\x00") {
+		return false
+	}
+	fwd, bwd := map[string]string{}, map[string]string{}
+	for k := range ia {
+		x, y := ea[ia[k][0]:ia[k][1]], eb[ib[k][0]:ib[k][1]]
+		field := ia[k][0] > 0 && ea[ia[k][0]-1] == '.'
+		if field {
+			if x != y {
+				return false
+			}
+			continue
+		}
+		if m, ok := fwd[x]; ok && m != y {
+			return false
+		}
+		if m, ok := bwd[y]; ok && m != x {
+			return false
+		}
+		fwd[x], bwd[y] = y, x
+	}
+	return true
+}
+
+// tableGet looks a key up exactly, then up to the names of local variables.
+func tableGet(tbl map[string]string, key string) (string, bool) {
+	if r, ok := tbl[key]; ok {
+		return r, true
+	}
+	var keys []string
+	for k := range tbl {
+		keys = append(keys, k)
+	}
+	sort.Strings(keys)
+	for _, k := range keys {
+		if alphaEq(k, key) {
+			return tbl[k], true
+		}
+	}
+	return "", false
 }
